@@ -12,26 +12,15 @@ growth law `grow : ℕ → ℕ` (so every expansion factor: the driver instantia
 `grow n = (size_t)((float)n * exp_factor)`), every request size in ℕ, every pointer given to
 `free`, every history of malloc/calloc/free/reset/user writes, every allocator schedule.
 
-Documented preconditions (`OpOk`): a `calloc` product fits in `size_t` (the library multiplies
-without an overflow test: `corpus/dpool/defect_calloc_overflow.ops`), user writes stay inside the
-newest page.  Alignment is *relative to the page payload* (`blocks_aligned`); the absolute statement
+Documented preconditions (`OpOk`): at a `calloc` the newest page's size is a `size_t` value
+(`< 2^64`; needed so that a product overflowing `size_t` — which the library answers with NULL —
+is also too large in the spec's sense), user writes stay inside the newest page.  Alignment is *relative to the page payload* (`blocks_aligned`); the absolute statement
 needs an aligned payload base (`blocks_aligned_absolute`) — the allocator guarantees that only up
 to 16, which is known finding M6. -/
 namespace CC.Properties.C13
 open CC CC.Spec
 open CC.Spec.DPool (Op)
-
-/-- precondition of one operation in state `s` -/
-def OpOk (s : DynamicPool) : Op → Prop
-  | .calloc c k _ => c * k < sizeMod
-  | .write off n _ => off + n ≤ s.topPageSize
-  | _ => True
-
-/-- every operation of the history meets its precondition in the state it is applied to -/
-def RunOk (grow : Nat → Nat) (fresh : Nat) : DynamicPool → List Op → Mem → Prop
-  | _, [], _ => True
-  | s, op :: ops, m =>
-    OpOk s op ∧ RunOk grow fresh (DynamicPool.step grow fresh s op m).2.1 ops (DynamicPool.step grow fresh s op m).2.2
+open CC.DynamicPool (OpOk RunOk)
 
 /-- One step of the concrete model refines one step of the page/block spec (the spec's refusal flag
 being the allocator's answer): same returned pointer, abstraction commutes, invariant preserved;
@@ -144,6 +133,12 @@ theorem null_inert (grow : Nat → Nat) (fresh : Nat) (s : DynamicPool) (m : Mem
     (∀ c k, (DynamicPool.calloc grow fresh s c k m).1 = none → (DynamicPool.calloc grow fresh s c k m).2.1 = s) :=
   ⟨fun n => (DynamicPool.malloc_ledger grow fresh s n m).1, fun c k => (DynamicPool.calloc_ledger grow fresh s c k m h).1⟩
 
+/-- a `calloc` whose product does not fit in `size_t` returns NULL, asks the allocator for nothing
+and changes nothing (the overflow guard in front of the multiplication) -/
+theorem calloc_overflow_null (grow : Nat → Nat) (fresh : Nat) (s : DynamicPool) (c k : Nat) (m : Mem)
+    (h : 2 ^ 64 ≤ c * k) : DynamicPool.calloc grow fresh s c k m = (none, s, m) :=
+  DynamicPool.calloc_overflow grow fresh s c k m h
+
 /-- `free` of any pointer other than the newest page's `high_ptr`: every field is unchanged -/
 theorem release_inert (s : DynamicPool) (p : Option (Nat × Nat)) (hp : p ≠ some (s.pages.length - 1, s.high)) :
     s.release p = s := DynamicPool.release_inert s p hp
@@ -218,152 +213,13 @@ theorem malloc_block (grow : Nat → Nat) (fresh : Nat) (s : DPool) (n : Nat) (r
     (∀ b ∈ s'.top.blocks.tail, disjoint (a.2, span) (b.off, b.span)) ∧
     ((∃ p ps, s.pages = p :: ps ∧ s'.pages = { p with blocks := ⟨a.2, n, span⟩ :: p.blocks } :: ps) ∨
      (s.fixed = false ∧ r = false ∧
-      s'.pages = { size := grow s.top.size, bytes := List.replicate (grow s.top.size) fresh, blocks := [⟨0, n, span⟩] } :: s.pages)) := by
-  intro s' span
-  obtain ⟨hne, hall, _⟩ := h
-  cases hp : s.pages with
-  | nil => exact (hne hp).elim
-  | cons p ps =>
-    have hpw := hall p (by rw [hp]; exact List.mem_cons_self ..)
-    have htop : s.top = p := by simp [DPool.top, hp]
-    simp only [s', span]
-    unfold DPool.malloc at ha ⊢
-    rw [htop] at ha ⊢
-    simp only [DPool.topUsed, htop] at ha ⊢
-    by_cases h1 : n ≥ p.size
-    · simp [h1] at ha
-    · simp only [h1, if_false] at ha ⊢
-      by_cases h2 : n + padOf s.packed s.ab n ≤ p.size - spanLen p.blocks
-      · simp only [h2, if_true, Option.some.injEq] at ha ⊢
-        subst ha
-        have hs := hpw.2.1
-        simp only [DPool.pushBlock, hp, DPool.top, List.headD_cons, List.length_cons, Nat.add_sub_cancel,
-          List.head?_cons, List.tail_cons, true_and]
-        refine ⟨by omega, ?_, Or.inl ⟨p, ps, rfl, rfl⟩⟩
-        intro b hb
-        have := (playout_bound _ hpw.1 b hb).1
-        right; simp only; omega
-      · simp only [h2, if_false] at ha ⊢
-        by_cases h3 : (s.fixed || decide (n + padOf s.packed s.ab n > grow p.size)) = true
-        · simp [h3] at ha
-        · simp only [h3] at ha ⊢
-          cases r with
-          | true => simp at ha
-          | false =>
-            simp only [Bool.false_eq_true, if_false, Option.some.injEq] at ha ⊢
-            subst ha
-            simp only [Bool.or_eq_true, decide_eq_true_eq, not_or, Bool.not_eq_true] at h3
-            simp only [DPool.top, hp, List.headD_cons, List.length_cons, Nat.add_sub_cancel, List.head?_cons,
-              List.tail_cons, true_and]
-            refine ⟨by omega, by simp, Or.inr ⟨h3.1, by first | rfl | trivial⟩⟩
+      s'.pages = { size := grow s.top.size, bytes := List.replicate (grow s.top.size) fresh, blocks := [⟨0, n, span⟩] } :: s.pages)) :=
+  Spec.DPoolFacts.malloc_block grow fresh s n r a h ha
 
 /-- well-formedness is preserved by every operation, for every growth law and refusal -/
 theorem spec_wf_step (grow : Nat → Nat) (fresh : Nat) (s : DPool) (op : Op) (h : s.WF) :
-    (DPool.step grow fresh s op).2.WF := by
-  have hfill : ∀ (t : DPool) (off n v : Nat), t.WF → (t.fillTop off n v).WF := by
-    intro t off n v ht
-    obtain ⟨hne, hall, hfix⟩ := ht
-    cases hp : t.pages with
-    | nil => exact (hne hp).elim
-    | cons p ps =>
-      simp only [DPool.fillTop, hp]
-      refine ⟨by simp, ?_, by simpa [hp] using hfix⟩
-      intro q hq
-      cases hq with
-      | head =>
-        have := hall p (by rw [hp]; exact List.mem_cons_self ..)
-        exact ⟨this.1, this.2.1, by simpa using this.2.2.1, this.2.2.2⟩
-      | tail _ hq' => exact hall q (by rw [hp]; exact List.mem_cons_of_mem _ hq')
-  have hmalloc : ∀ n r, (DPool.malloc grow fresh s n r).2.WF := by
-    intro n r
-    obtain ⟨hne, hall, hfix⟩ := h
-    cases hp : s.pages with
-    | nil => exact (hne hp).elim
-    | cons p ps =>
-      have hpw := hall p (by rw [hp]; exact List.mem_cons_self ..)
-      have htop : s.top = p := by simp [DPool.top, hp]
-      unfold DPool.malloc
-      rw [htop]; simp only [DPool.topUsed, htop]
-      have hWF : s.WF := ⟨hne, hall, hfix⟩
-      by_cases h1 : n ≥ p.size
-      · simpa [h1] using hWF
-      · simp only [h1, if_false]
-        by_cases h2 : n + padOf s.packed s.ab n ≤ p.size - spanLen p.blocks
-        · simp only [h2, if_true, DPool.pushBlock, hp]
-          refine ⟨by simp, ?_, by simpa [hp] using hfix⟩
-          intro q hq
-          cases hq with
-          | head =>
-            obtain ⟨hl, hs, hb, hal⟩ := hpw
-            refine ⟨⟨rfl, by dsimp only; omega, hl⟩, by simp only [spanLen]; omega, hb, ?_⟩
-            intro hpk hab b hbm
-            cases hbm with
-            | head =>
-              dsimp only
-              exact ⟨DynamicPool.spanLen_mod s.ab p.blocks (fun b hb => (hal hpk hab b hb).2),
-                     (span_aligned _ _ n hpk hab).1⟩
-            | tail _ hb' => exact hal hpk hab b hb'
-          | tail _ hq' => exact hall q (by rw [hp]; exact List.mem_cons_of_mem _ hq')
-        · simp only [h2, if_false]
-          by_cases h3 : (s.fixed || decide (n + padOf s.packed s.ab n > grow p.size)) = true
-          · simpa [h3] using hWF
-          · simp only [h3]
-            cases r with
-            | true => simpa using hWF
-            | false =>
-              simp only [Bool.or_eq_true, decide_eq_true_eq, not_or, Bool.not_eq_true] at h3
-              simp only [Bool.false_eq_true, if_false]
-              refine ⟨by simp, ?_, fun hf => by rw [h3.1] at hf; cases hf⟩
-              intro q hq
-              cases hq with
-              | head =>
-                refine ⟨⟨rfl, by dsimp only; omega, trivial⟩, by simp only [spanLen]; omega, by simp, ?_⟩
-                intro hpk hab b hbm
-                simp only [List.mem_singleton] at hbm
-                subst hbm
-                exact ⟨by simp, (span_aligned _ _ n hpk hab).1⟩
-              | tail _ hq' => exact hall q hq'
-  cases op with
-  | malloc n r => exact hmalloc n r
-  | calloc c k r =>
-    simp only [DPool.step, DPool.calloc]
-    split
-    · exact hfill _ _ _ _ (hmalloc _ r)
-    · exact hmalloc _ r
-  | release p =>
-    obtain ⟨hne, hall, hfix⟩ := h
-    simp only [DPool.step, DPool.release]
-    split
-    · rename_i pg ps a _ hpg
-      split
-      · rename_i b rest hb
-        split
-        · refine ⟨by simp, ?_, by simpa [hpg] using hfix⟩
-          intro q hq
-          cases hq with
-          | head =>
-            obtain ⟨hl, hs, hbl, hal⟩ := hall pg (by rw [hpg]; exact List.mem_cons_self ..)
-            rw [hb] at hl hs hal
-            simp only [DPool.layout] at hl
-            simp only [spanLen] at hs
-            exact ⟨hl.2.2, by dsimp only; omega, hbl, fun a1 a2 b' hb' => hal a1 a2 b' (List.mem_cons_of_mem _ hb')⟩
-          | tail _ hq' => exact hall q (by rw [hpg]; exact List.mem_cons_of_mem _ hq')
-        · exact ⟨hne, hall, hfix⟩
-      · exact ⟨hne, hall, hfix⟩
-    · exact ⟨hne, hall, hfix⟩
-  | reset =>
-    obtain ⟨hne, hall, hfix⟩ := h
-    simp only [DPool.step, DPool.reset]
-    split
-    · rename_i q hq
-      refine ⟨by simp, ?_, fun _ => rfl⟩
-      intro r hr
-      simp only [List.mem_singleton] at hr
-      subst hr
-      have := hall q (List.mem_of_getLast? hq)
-      exact ⟨trivial, Nat.zero_le _, this.2.2.1, fun _ _ b hb => by cases hb⟩
-    · exact ⟨hne, hall, hfix⟩
-  | write off n v => exact hfill s off n v h
+    (DPool.step grow fresh s op).2.WF :=
+  Spec.DPoolFacts.spec_wf_step grow fresh s op h
 
 theorem spec_wf_run (grow : Nat → Nat) (fresh : Nat) (ops : List Op) (s : DPool) (h : s.WF) :
     (DPool.run grow fresh s ops).2.WF := by
@@ -451,55 +307,8 @@ theorem reset_one_page (s : DPool) (h : s.WF) :
 /-- the oldest page keeps its size through every operation, so after any history `reset` returns
 the pool to a single empty page of the initial size -/
 theorem oldest_page_size (grow : Nat → Nat) (fresh : Nat) (s : DPool) (op : Op) :
-    ((DPool.step grow fresh s op).2.pages.getLast?.map (·.size)) = (s.pages.getLast?.map (·.size)) := by
-  have hfill : ∀ (t : DPool) (off n v : Nat),
-      (t.fillTop off n v).pages.getLast?.map (·.size) = t.pages.getLast?.map (·.size) := by
-    intro t off n v
-    simp only [DPool.fillTop]
-    cases hp : t.pages with
-    | nil => simp [hp]
-    | cons p ps => cases ps <;> simp [List.getLast?_cons_cons]
-  have hmalloc : ∀ n r, (DPool.malloc grow fresh s n r).2.pages.getLast?.map (·.size) = s.pages.getLast?.map (·.size) := by
-    intro n r
-    unfold DPool.malloc
-    by_cases h1 : n ≥ s.top.size
-    · simp [h1]
-    · by_cases h2 : n + padOf s.packed s.ab n ≤ s.top.size - s.topUsed
-      · simp only [h1, h2, if_false, if_true, DPool.pushBlock]
-        cases hp : s.pages with
-        | nil => simp [hp]
-        | cons p ps => cases ps <;> simp [List.getLast?_cons_cons]
-      · by_cases h3 : (s.fixed || decide (n + padOf s.packed s.ab n > grow s.top.size)) = true
-        · simp [h1, h2, h3]
-        · cases r
-          · simp only [h1, h2, h3, if_false, Bool.false_eq_true]
-            cases hp : s.pages with
-            | nil => simp [DPool.top, hp] at h1
-            | cons p ps => simp [List.getLast?_cons_cons]
-          · simp [h1, h2, h3]
-  cases op with
-  | malloc n r => exact hmalloc n r
-  | calloc c k r =>
-    simp only [DPool.step, DPool.calloc]
-    split
-    · rw [hfill]; exact hmalloc _ r
-    · exact hmalloc _ r
-  | release p =>
-    simp only [DPool.step, DPool.release]
-    split
-    · rename_i pg ps a _ hpg
-      split
-      · split
-        · rw [hpg]; cases ps <;> simp [List.getLast?_cons_cons]
-        · rfl
-      · rfl
-    · rfl
-  | reset =>
-    simp only [DPool.step, DPool.reset]
-    split
-    · rename_i q hq; simp [hq]
-    · rfl
-  | write off n v => exact hfill s off n v
+    ((DPool.step grow fresh s op).2.pages.getLast?.map (·.size)) = (s.pages.getLast?.map (·.size)) :=
+  Spec.DPoolFacts.oldest_page_size grow fresh s op
 
 /-- one roll-back slot: `free` of the newest block of the newest page removes exactly that block;
 once the slot is empty no `free` changes anything; any other pointer changes nothing -/
@@ -531,32 +340,8 @@ theorem calloc_zeroed (grow : Nat → Nat) (fresh : Nat) (s : DPool) (c k : Nat)
     (∀ i, i < c * k → (DPool.calloc grow fresh s c k r).2.top.bytes.getD (a.2 + i) 0 = 0) ∧
     (∀ j, j < (DPool.malloc grow fresh s (c * k) r).2.top.size → ¬ (a.2 ≤ j ∧ j < a.2 + c * k) →
        (DPool.calloc grow fresh s c k r).2.top.bytes.getD j 0 = (DPool.malloc grow fresh s (c * k) r).2.top.bytes.getD j 0) ∧
-    (DPool.calloc grow fresh s c k r).2.pages.tail = (DPool.malloc grow fresh s (c * k) r).2.pages.tail := by
-  have hwf1 : (DPool.malloc grow fresh s (c * k) r).2.WF := spec_wf_step grow fresh s (.malloc (c * k) r) h
-  simp only [DPool.calloc] at ha ⊢
-  cases hm : (DPool.malloc grow fresh s (c * k) r).1 with
-  | none => simp [hm] at ha
-  | some a' =>
-    simp only [hm, Option.some.injEq] at ha ⊢
-    subst ha
-    have hb := (malloc_block grow fresh s (c * k) r a' h hm).2.1
-    obtain ⟨hne, hall, _⟩ := hwf1
-    generalize (DPool.malloc grow fresh s (c * k) r).2 = s1 at *
-    cases hp : s1.pages with
-    | nil => exact (hne hp).elim
-    | cons p ps =>
-      have hpw := hall p (by rw [hp]; exact List.mem_cons_self ..)
-      have htop : s1.top = p := by simp [DPool.top, hp]
-      rw [htop] at hb ⊢
-      have hlen := hpw.2.2.1
-      simp only [DPool.fillTop, hp, DPool.top, List.headD_cons, List.tail_cons, true_and]
-      refine ⟨?_, ?_, trivial⟩
-      · intro i hi
-        rw [getD_fillBytes _ _ _ _ _ (by omega)]
-        simp; omega
-      · intro j hj hout
-        rw [getD_fillBytes _ _ _ _ _ (by omega)]
-        simp [hout]
+    (DPool.calloc grow fresh s c k r).2.pages.tail = (DPool.malloc grow fresh s (c * k) r).2.pages.tail :=
+  Spec.DPoolFacts.calloc_zeroed grow fresh s c k r a h ha
 
 /-! ## Non-vacuity: a padded expandable pool with two pages; the newest block can be rolled back -/
 example :
